@@ -10,7 +10,11 @@ history on one driver line.  Compared per operation: response code, Location-Pat
 Oracle: a reference dict-based resource directory written from RFC 9176 / the property text.  It
 is driven by the *response codes the implementation gave* (a write counts iff it was answered
 2.xx) and checked against unfiltered endpoint and resource lookups taken after every
-operation, so it needs no knowledge of which parameters the implementation accepts.
+operation, so it needs no knowledge of which parameters the implementation accepts -- with one
+exception: a small class of writes every RFC 9176 directory must accept (`certainly_valid`) has to
+be answered 2.01 / 2.04, so that a directory refusing too much is not blessed.  Lookup answers are
+read by `read_links`, written from the RFC 6690 grammar with strict parmnames: an answer it cannot
+read is an oracle failure (`snapshot:lookups-broken`).
 """
 import logging
 import re
@@ -31,7 +35,9 @@ RULE = ("Histories of register / re-register / POST update / PUT / DELETE / GET 
         "register, re-register, POST, PUT and failed writes; every refusal kind on a new key, an "
         "existing key, POST and PUT; every valueless option x every kind of write x every "
         "deadline that write could have produced, followed by a plain update and its deadline; "
-        "path reuse; default lt 90000), then random histories from env.rng whose time steps aim "
+        "path reuse; default lt 90000; the framing characters \" ; , < > space backslash and non-ASCII "
+        "(= in values) in registration parameter names, bases, link targets and anchors on register, "
+        "re-register, POST and PUT; a list of certainly valid RFC 9176 writes), then random histories from env.rng whose time steps aim "
         "at pending deadlines -1/0/+1 tick (valueless options, quoted values and bad bases are "
         "part of the ordinary stream); up to 15 % of the random histories come from a malformed "
         "stream (exotic lt spellings, odd bases, pagination, wildcards, proxy) that the model "
@@ -42,8 +48,15 @@ TRUSTED = ["harness/c20_vloop.py virtual clock (asyncio timers fired by moving t
            "the harness-side link-format reader used to canonicalise payloads"]
 ASSUMPTIONS = ["proxy mode, simple registration, page/count with a value, wildcard filters, explicit "
                "anchor attributes, bases other than scheme://authority (authority a name or a "
-               "bracketed IPv6 literal, or with an unpaired bracket: refused) and lt spellings other "
-               "than [+-]?[0-9]+ below 2^40 are out-of-model (judged by the oracle only)",
+               "bracketed IPv6 literal; with an unpaired bracket or a '>' anywhere: in the model, refused) "
+               "and lt spellings other than [+-]?[0-9]+ below 2^40 are out-of-model (judged by the oracle only)",
+               "the model sees query option names of any printable-ASCII shape (non-parmnames are refused on "
+               "writes) but link targets only as absolute paths [A-Za-z0-9/_-] and link attribute names only as "
+               "[A-Za-z0-9._-]+; non-ASCII names, other targets and anchors are judged by the oracle only; "
+               "names of link ATTRIBUTES with other characters (k\\y, non-ASCII: passed through to the resource "
+               "lookup by the directory) are not generated",
+               "which characters a link target may hold is not judged: the oracle's reader takes a target up to "
+               "the first '>' as every reader of the format does",
                "iteration order of the directory is not part of the property: lookup results are "
                "compared as sorted lists"]
 
@@ -104,25 +117,89 @@ def op_token(op):
     return f"{k}:{q_token(op[1])}"
 
 
-QUOTED = r'"((?:[^"\\]|\\.)*)"'
-LINK_RE = re.compile(r'<([^>]*)>((?:;[^=;,"]+(?:=' + QUOTED.replace("(", "(?:", 1) + r')?)*)(?:,|$)')
-ATTR_RE = re.compile(r';([^=;,"]+)(?:=' + QUOTED + r')?')
-UNESCAPE_RE = re.compile(r"\\(.)", re.S)            # RFC 6690 / RFC 2616 quoted-pair: backslash + any character
+# RFC 5987 attr-char: what RFC 6690 allows in the NAME of a link parameter (parmname = 1*attr-char; a trailing "*"
+# marks an ext-value parameter)
+ATTRCHAR = set("ABCDEFGHIJKLMNOPQRSTUVWXYZabcdefghijklmnopqrstuvwxyz0123456789!#$&+-.^_`|~")
+# RFC 6690 ptokenchar
+PTOKENCHAR = set("ABCDEFGHIJKLMNOPQRSTUVWXYZabcdefghijklmnopqrstuvwxyz0123456789!#$%&'()*+-./:<=>?@[]^_`{|}~")
 
 
 def read_links(text):
-    """Own reader for the link-format the directory emits: [(href, [(key, value|None)])] or None.
-    Quoted-strings are read as RFC 6690 defines them: every quoted-pair stands for its second character (a
-    reader that only undid `\\"` would take the directory's own escaping habits for granted)."""
-    out, pos = [], 0
-    while pos < len(text):
-        m = LINK_RE.match(text, pos)
-        if not m or m.end() == pos:
+    """Own reader for the link-format the directory emits, written from the ABNF of RFC 6690 section 2 (it shares
+    nothing with aiocoap's regular expressions, nor with what its writer happens to escape):
+
+        link-value-list = [ link-value *( "," link-value ) ]
+        link-value      = "<" URI-Reference ">" *( ";" link-param )
+        link-param      = parmname [ "*" ] [ "=" ( ptoken / quoted-string ) ]
+        parmname        = 1*attr-char                  -- NOT "anything up to the next = ; ," (the reader of the
+                                                          earlier rounds took `;k y="1"` and `;a<b="1"` for parameters)
+        quoted-string   = DQUOTE *( qdtext / quoted-pair ) DQUOTE;  quoted-pair = "\\" CHAR, standing for that CHAR
+
+    -> [(href, [(name, value | None)])], or None when the text is not of that form.  The target is read up to the
+    first ">" as every reader of the format does (which characters a URI-Reference may hold is not judged)."""
+    links = []
+    i, n = 0, len(text)
+    while i < n:
+        if text[i] != "<":
             return None
-        out.append((m.group(1), [(a.group(1), None if a.group(2) is None else UNESCAPE_RE.sub(r"\1", a.group(2)))
-                                 for a in ATTR_RE.finditer(m.group(2))]))
-        pos = m.end()
-    return out
+        j = text.find(">", i)
+        if j < 0:
+            return None
+        href = text[i + 1:j]
+        i = j + 1
+        attrs = []
+        while i < n and text[i] == ";":
+            i += 1
+            j = i
+            while j < n and text[j] in ATTRCHAR:
+                j += 1
+            if j == i:
+                return None                     # a parameter name was expected
+            if j < n and text[j] == "*":
+                j += 1
+            key = text[i:j]
+            i = j
+            if i < n and text[i] == "=":
+                i += 1
+                if i < n and text[i] == '"':
+                    i += 1
+                    val = []
+                    while True:
+                        if i >= n:
+                            return None         # unterminated quoted-string
+                        c = text[i]
+                        if c == "\\":
+                            if i + 1 >= n:
+                                return None
+                            val.append(text[i + 1])
+                            i += 2
+                        elif c == '"':
+                            i += 1
+                            break
+                        else:
+                            val.append(c)
+                            i += 1
+                    attrs.append((key, "".join(val)))
+                else:
+                    j = i
+                    while j < n and text[j] in PTOKENCHAR and text[j] not in ";,":
+                        j += 1
+                    if j == i:
+                        return None
+                    attrs.append((key, text[i:j]))
+                    i = j
+            else:
+                attrs.append((key, None))
+            if i < n and text[i] not in ";,":
+                return None
+        links.append((href, attrs))
+        if i < n:
+            if text[i] != ",":
+                return None
+            i += 1
+            if i >= n:
+                return None                     # trailing comma
+    return links
 
 
 def show_links(links, sort_attrs, sort_entries):
@@ -309,6 +386,70 @@ def join(base, href):
         return "!unresolvable:" + base + "|" + href
 
 
+def based(base, h, at):
+    """A registered link as a resource lookup shows it (RFC 9176 section 6: targets and anchors resolved against the
+    registration's base); an explicit anchor travels as the last attribute (the order of link parameters carries no
+    meaning; the writer's is taken)"""
+    if any(k == "anchor" and v is not None for k, v in at):
+        anchor = [v for k, v in at if k == "anchor"][0]
+        return (join(base, h), [(k, v) for k, v in at if k != "anchor"] + [("anchor", join(base, anchor))])
+    return (join(base, h), at)
+
+
+# ---- writes every resource directory must accept (RFC 9176 section 5): a small, certainly valid class
+RESERVED = ("ep", "d", "lt", "base", "page", "count", "rt", "href", "anchor", "proxy")
+V_NAME = re.compile(r"[A-Za-z0-9._-]+\Z")
+V_PARAM = re.compile(r"[a-z][a-z0-9._-]*\Z")
+V_VALUE = re.compile(r"[A-Za-z0-9 ._:/<>=;,-]*\Z")          # `>` and friends are harmless in a VALUE: it is quoted
+_HOST = r"(?:[A-Za-z0-9.-]+|\[[0-9a-f:]+\])(?::[0-9]{1,5})?"
+V_BASE = re.compile(r"(?:coap|coaps|coap\+tcp|coap\+ws|http|https)://" + _HOST + r"(?:/[A-Za-z0-9._~/-]*)?\Z")
+V_TARGET = re.compile(r"(?:/[A-Za-z0-9._~/-]*|\.\./[A-Za-z0-9._~/-]*|[A-Za-z0-9._~-]+(?:/[A-Za-z0-9._~-]*)*|\?[A-Za-z0-9=&._-]*|"
+                      r"(?:coap|coaps|coap\+tcp|coap\+ws|http|https)://" + _HOST + r"(?:/[A-Za-z0-9._~/-]*)?|"
+                      r"urn:[A-Za-z0-9:._-]+|mailto:[a-z.@]+)\Z")
+
+
+def certainly_valid(op, live):
+    """True for a write of the class above; `live`: the registration addressed by a POST / PUT is alive"""
+    k = op[0]
+    remote, query, body = (op[1], op[2], op[3]) if k == "R" else (op[2], op[3], op[4])
+    if remote is None or any(len(i) != 2 for i in query):
+        return False
+    names = [i[0] for i in query]
+    if k == "R":
+        if names.count("ep") != 1 or names.count("d") > 1:
+            return False
+    elif not live or "ep" in names or "d" in names:
+        return False
+    if names.count("lt") > 1 or names.count("base") > 1:
+        return False
+    for n, v in query:
+        if n in ("ep", "d"):
+            ok = bool(V_NAME.match(v))
+        elif n == "lt":
+            ok = v.isascii() and v.isdigit() and v[0] != "0" and 1 <= int(v) <= 4294967295
+        elif n == "base":
+            ok = bool(V_BASE.match(v))
+        else:
+            ok = n not in RESERVED and bool(V_PARAM.match(n)) and bool(V_VALUE.match(v))
+        if not ok:
+            return False
+    if k == "U":
+        return body == NOBODY
+    if body[0] != "l" or (isinstance(body[1], str) and body[1] != "e"):
+        return False
+    for h, at in ([] if isinstance(body[1], str) else body[1]):
+        if not V_TARGET.match(h):
+            return False
+        for an, av in at:
+            if not V_PARAM.match(an) or an in ("href",):
+                return False
+            if an == "anchor" and (av is None or not V_TARGET.match(av)):
+                return False
+            if av is not None and not V_VALUE.match(av):
+                return False
+    return True
+
+
 class Reference:
     """RFC 9176 registrations as a dict (ep, d) -> entry, driven by the observed response codes."""
 
@@ -445,7 +586,7 @@ class Reference:
             if keys is not None and key not in keys:
                 continue
             for h, at in e["links"]:
-                out.append((join(e["base"], h), at))
+                out.append(based(e["base"], h, at))
         return out
 
     def lookup(self, kind, query):
@@ -458,7 +599,7 @@ class Reference:
             conds.append(tuple(i))
         res = []
         for key, e in self.regs.items():
-            links = [(join(e["base"], h), at) for h, at in e["links"]]
+            links = [based(e["base"], h, at) for h, at in e["links"]]
 
             def reg_ok(k, v):
                 if k in ("ep", "d"):
@@ -536,6 +677,11 @@ def judge(impl, ops):
                         f"lookups showed {before[1]}, now {after[1]}")
                 verdict = f"op {idx} {op_token(op)} was answered {tok} but changed the directory: {what}"
                 vkey = ("4xx-changed-state:" if tok.startswith("E4") else "failed-write-changed-state:") + op[0]
+        if not verdict and is_write and tok[0] not in "CH" and certainly_valid(
+                op, op[0] == "R" or ref.by_href(f"/reg/{op[1]}/") is not None):
+            verdict = (f"op {idx} {op_token(op)} is a plain RFC 9176 write (ep, d, lt in range, base scheme://host[:port][/path], "
+                       f"link targets and parameter names of ordinary shape) and was answered {tok}")
+            vkey = "valid-write-refused:" + op[0]
         v = ref.observe(op, tok)
         if op[0] == "T" and len(ref.regs) < live_before:
             stats["expired"] += 1
@@ -751,6 +897,80 @@ def boundary_table(grace):
     return cases
 
 
+# characters that frame link-format (RFC 6690): none of them has an escape in a parameter NAME or inside `<...>`
+FRAMING = ['"', ";", ",", "<", ">", " ", "\\", "\u00e9"]
+BAD_NAMES = ["k" + ch + "y" for ch in FRAMING] + ["", "a,</evil>;ep", "k*", "\u00e9", " k", "k ", "k\\", "<", ">", '"']
+# (`=` can not be part of a name: a Uri-Query option is split at its first `=`; it is tried in values)
+ODD_BASES = ["coap://h" + ch + "x" for ch in FRAMING + ["="]] + \
+    ["coap://h>", "coap://h1>,<coap://victim.example", "coap://h/p>q", ">", "coap://h>/p/"]
+
+
+def framing_table(grace):
+    """Client-supplied text that the lookups write out where link-format has no escape -- names of registration
+    parameters (link-param names of the endpoint lookup), the base and the link targets (inside `<...>` of the
+    resource lookup), anchors -- on register, re-register, POST update and PUT.  The oracle: the write is refused
+    (4.xx, nothing changed), or every lookup afterwards is readable (RFC 6690 grammar, strict parmnames) and lists
+    exactly the registered endpoints / resources with their parameters.  Then the writes nobody may refuse."""
+    cases = []
+    looks = [["E", []], ["S", []]]
+    flt = [["E", [["ep", "n1"]]], ["S", [["rt", "temp"]]], ["E", [["rt", "temp"]]], ["S", [["ep", "n2"]]]]
+    two = [reg("n1", lt=60, extra=[("foo", "old")]), reg("n2", "s1", lt=60, links=L2)]
+    for name in BAD_NAMES:
+        for item in ([name, "1"], [name]):
+            if item == [""]:
+                continue                                    # an empty option is no option at all
+            cases.append(two + [["R", REMOTES[0], [["ep", "n3"], item], LF(L1)]] + looks + flt +
+                         [["R", REMOTES[0], [["ep", "n1"], ["lt", "30"], item], LF(L2)]] + looks + flt + [["G", 1]])
+            cases.append(two + [["U", 1, REMOTES[1], [item, ["lt", "30"]], NOBODY]] + looks + flt +
+                         [["P", 2, REMOTES[1], [["lt", "30"], item], LF(L1)]] + looks + flt +
+                         [["U", 1, REMOTES[0], [], NOBODY], ["G", 2], ["T", (30 + grace) * TPS - 1]] + looks + [["T", 1]] + looks)
+    for b in ODD_BASES:
+        cases.append(two + [["U", 1, REMOTES[0], [["base", b]], NOBODY]] + looks + flt +
+                     [["U", 2, REMOTES[0], [["base", b], ["lt", "30"]], NOBODY]] + looks + flt +
+                     [["P", 1, REMOTES[0], [["base", b]], LF([])]] + looks + flt +
+                     [["P", 2, REMOTES[0], [["base", b]], LF(L1)]] + looks + flt + [["G", 1], ["G", 2]])
+        cases.append(two + [reg("n1", lt=5, extra=[("base", b)])] + looks + flt +
+                     [reg("n3", lt=30, extra=[("base", b)], links=[])] + looks + flt +
+                     [["P", 3, REMOTES[0], [], LF(L1)]] + looks + flt +        # links arrive under a base stored before
+                     [["P", 2, REMOTES[0], [], LF([["x", [["rt", "temp"]]]])], reg("n2", links=L2, extra=[("base", b)])] + looks + flt)
+    for ch in FRAMING + ["="]:
+        for odd in ([["/a" + ch + "b", [["rt", "temp"]]]],
+                    [["/ok", []], ["a" + ch, [["rt", "temp"]]]],
+                    [["/a", [["rt", "temp"], ["anchor", "/x" + ch + "y"]]]],
+                    [["/a", [["anchor", ch], ["rt", "temp"]]]]):
+            cases.append(two + [reg("n3", lt=60, links=odd)] + looks + flt + [reg("n1", lt=60, links=odd)] + looks + flt +
+                         [["P", 2, REMOTES[0], [], LF(odd)]] + looks + flt +
+                         [["P", 2, REMOTES[0], [["base", BASES[0] + "/p/"]], LF(odd)]] + looks + flt + [["G", 1], ["G", 2], ["G", 3]])
+        # the same characters are harmless in VALUES (quoted): such writes must be accepted
+        cases.append(two + [reg("n3", lt=60, extra=[("note", "a" + ch + "b")], links=[["/a", [["title", "a" + ch + "b"]]]])] +
+                     looks + flt + [["U", 1, REMOTES[0], [["note", ch]], NOBODY],
+                                    ["P", 2, REMOTES[0], [["x-y.z", ch + ch]], LF([["/b", [["title", ch]]]])]] + looks + flt)
+    # --- writes every directory must accept (RFC 9176 section 5), each followed by every lookup
+    valid = [
+        (["base", "coap://h1/p/"], [["sensors/temp", [["rt", "temp"]]]]),               # relative target, base with a path
+        (["base", "coap://h1/p/q"], [["../x", [["rt", "temp"]]]]),
+        (["base", "coap://h1/p"], [["?k=v", [["rt", "temp"]]]]),
+        (["base", "coap://[2001:db8::7]:5683"], [["/a", [["rt", "temp"]]]]),
+        (["base", "coap+tcp://h10"], [["/a", [["rt", "temp"]]]]),
+        (["base", "http://h11:8080"], [["/a", [["rt", "temp"]]]]),
+        (None, [["http://www.example.com/sensors/t123", [["rt", "temp"]]]]),
+        (None, [["coaps://h/x", [["rt", "temp"]]], ["coap+tcp://[::1]/y", []], ["coap+ws://h/z", [["rt", "temp"]]]]),
+        (None, [["urn:dev:ow:10e2073a01080063", [["rt", "temp"]]], ["mailto:a@b.example", []]]),
+        (["base", "coap://h9"], [["/sensors/temp", [["rt", "temp"], ["anchor", "coap://other.example/"]]],
+                                 ["http://www.example.com/s", [["anchor", "/sensors/temp"], ["rel", "describedby"]]]]),
+        (["x-y.z", "1"], [["/a", [["rt", "temp"], ["x-y.z", "v"], ["obs", None]]]]),     # names with `-` and `.`
+        (["note", "a>b <c>; d=e, f"], [["/a", [["title", "a>b <c>; d=e, f"]]]]),         # framing characters in values
+        (["lt", "1"], []), (["lt", "4294967295"], L1), (["et", "oic.d"], L2),
+    ]
+    for extra, links in valid:
+        ex = [extra] if extra else []
+        cases.append([reg("n1", lt=60), ["R", REMOTES[0], [["ep", "a-1.x_y"], ["d", "s-1.x"]] + ex, LF(links)]] + looks + flt +
+                     [["G", 2], ["U", 1, REMOTES[1], ex, NOBODY]] + looks +
+                     [["P", 1, REMOTES[0], ex, LF(links)]] + looks + flt + [["G", 1], ["R", REMOTES[1], [["ep", "n1"]] + ex, LF(links)]] +
+                     looks + flt)
+    return cases
+
+
 def rand_links(rng):
     out = []
     for _ in range(rng.choice([0, 1, 1, 2, 3])):
@@ -962,9 +1182,10 @@ def run(env, rep):
         raise HarnessError(f"grace_period {grace!r} is not an integer number of seconds")
 
     cases = [("corpus", c["ops"]) for _, c in load_corpus("C20") if "ops" in c]
-    table = boundary_table(grace)
+    table = boundary_table(grace) + framing_table(grace)
     cases += [("boundary", ops) for ops in table]
-    rep.exhaustive_parts.append(f"boundary table: {len(table)} histories (deadlines -1/0/+1 tick, 4.xx kinds, locations, filters)")
+    rep.exhaustive_parts.append(f"boundary table: {len(table)} histories (deadlines -1/0/+1 tick, 4.xx kinds, locations, filters, "
+                                f"framing characters in names / bases / targets / anchors, certainly valid writes)")
     n = env.scale(1400, 40000)
     for i in range(n):
         malformed = i % 7 == 6                      # ~14 % of the random histories
